@@ -134,8 +134,10 @@ _PRE = ["0 <= o0 <= 2", "1 <= m0 <= 15", "0 <= o1 <= 2", "0 <= m1 <= 15", "0 <= 
 @harness("C07", args=_ARGS, pre=_PRE,
          tiers={"quick": {"timeout": 170, "pre": ["m2 == 0 and o2 == 0 and r2 == False and l2 == False", "w == 2", "r1 == False or m1 == 3 or m1 == 6 or m1 == 15", "l1 == False", "l0 == False or m0 == 1 or m0 == 2", "r0 == False or m0 == 3 or m0 == 6 or m0 == 12 or m0 == 15"],
                           "parts": parts_product(parts_over("o0", range(3)), parts_over("final", (2, 3)), parts_over("o1", range(3)))},
-                "thorough": {"timeout": 1500, "pre": ["l2 == False and r2 == False"],
-                             "parts": parts_product(parts_over("o0", range(3)), parts_over("final", (2, 3)), parts_over("o1", range(3)), parts_over("o2", range(3)))}},
+                # (a partition = one choice of the three operations, the final export and the first two module subsets: 256 histories)
+                "thorough": {"timeout": 600, "pre": ["l2 == False and r2 == False and l1 == False"],
+                             "parts": parts_product(parts_over("o0", range(3)), parts_over("final", (2, 3)), parts_over("o1", range(3)), parts_over("o2", range(3)),
+                                                    parts_over("m0", range(1, 16)), parts_over("m1", range(16)))}},
          sample=(0, 1, False, False, 1, 6, True, False, 0, 0, False, False, 2, 2),
          bounds="DAG of 4 modules (Leaf with a bundle port; Mid with bundle ports, an internal bundle, an anonymous bundle and a port reference; two tops sharing Mid and Leaf); histories of 2 (quick) / 3 (thorough) calls, each elaborate / to_proto / netlist on any non-empty subset of the modules, in either order, alone or as a list; final export of either top; w = 2 (quick) / 1..2",
          generalises="history selectors (solver-enumerated; each history runs concretely)", outside="longer histories; more modules; genuinely separate processes (approximated by cache reset + fresh objects)")
